@@ -81,6 +81,11 @@ func c01Universe(variant int) pongo2.Context {
 		"fstr": func(s fmt.Stringer) string { return "x" }, "fptr": func(p *int) int { return 1 }, "nilfn": (func() string)(nil),
 		"fvalnil": func() *pongo2.Value { return nil }, "ferrtype": func() (int, string) { return 1, "notanerror" },
 		"ch": make(chan int, 1), "cplx": complex(1, 2), "err": errors.New("<err>"), "pp": &pone, "u": uintptr(7),
+		// maps with unusual key types, and values that are almost (but not) keys of them
+		"arrmap": map[[2]int]string{{1, 2}: "pair"}, "i64map": map[int64]string{1: "one"}, "nsmap": map[ZStrStr]int{"k": 1}, "ptrmap": map[*int]int{pone: 1},
+		"ifmap": map[fmt.Stringer]int{ZIntStr(1): 1}, "sl1": []int{7}, "sl2": []int{1, 2}, "arr2": [2]int{1, 2}, "i64": int64(1), "ns": ZStrStr("k"),
+		// a context key that clashes with a macro exported by a helper file
+		"imp_box": "clash",
 	}
 	for k, v := range extra {
 		ctx[k] = v
@@ -287,6 +292,11 @@ func c01Expr(t *rapid.T, depth int) string {
 			case 0, 1, 2:
 				s += pick(t, "st", c01Steps)
 			case 3:
+				if drawBool(t, "mapsub") {
+					// container x key-like value: reaches the key handling of subscripts far more often than two random names
+					return pick(t, "cont", []string{"arrmap", "i64map", "nsmap", "ptrmap", "ifmap", "am", "im", "um", "bm", "fm", "sm", "mm", "nilmap", "s", "sp", "sl", "arr", "str"}) +
+						"[" + pick(t, "keyish", []string{"sl1", "sl2", "sl", "arr2", "arr", "i64", "i", "u8", "ns", "str", "e", "f", "nan", "t", "nili", "pp", "istr", "sstr", "mm", "fn", "0", "1", `"k"`, `"a"`, "neg", "i64min", "u64max", "tm", "val", "nilval"}) + "]"
+				}
 				if depth > 0 {
 					s += "[" + c01Expr(t, depth-1) + "]"
 				} else {
@@ -338,7 +348,7 @@ func c01Expr(t *rapid.T, depth int) string {
 func c01Tpl(t *rapid.T, depth int) string {
 	var sb strings.Builder
 	for i := drawInt(t, 1, 3, "n"); i > 0; i-- {
-		k := drawInt(t, 0, 19, "kind")
+		k := drawInt(t, 0, 20, "kind")
 		if depth <= 0 && k > 3 {
 			k = k % 4
 		}
@@ -391,6 +401,10 @@ func c01Tpl(t *rapid.T, depth int) string {
 				return e()
 			}
 			sb.WriteString("{% for q in sl %}{% cycle " + cyArg() + " " + cyArg() + " as " + pick(t, "cyn", []string{"a", "q", "name", "forloop"}) + pick(t, "cysil", []string{"", " silent"}) + " %}{{ a }}{% endfor %}")
+		case 20:
+			// a helper file that exports macros, pulled in as a document: its macro names may clash with context keys
+			sb.WriteString(pick(t, "clash", []string{`{% include "/macros.tpl" %}`, `{% set imp_row = 1 %}{% include "/macros.tpl" %}`, `{% ssi "/macros.tpl" parsed %}`, `{% include incname with imp_row=` + e() + ` %}`,
+				`{% with imp_box=1 %}{% include "/macros.tpl" only %}{% endwith %}`, `{% include "/macros.tpl" with imp_box=` + e() + ` only %}`}))
 		case 19:
 			sb.WriteString(`{% import "/macros.tpl" imp_box, imp_row as ` + pick(t, "al", []string{"row", "forloop", "imp_box", "s"}) + ` %}{{ imp_box(` + e() + `) }}`)
 		}
